@@ -38,12 +38,23 @@ LEAF = {
     'ints': ('t:ints', ('1 0', '', '5')),
     'toks': ('t:toks', ('a b', 'c', '')),
     'decs': ('t:decs', ('1.0 0', '', '3')),
+    'ints3': ('t:ints', ('1 2 3', '', '5')),                 # the same list type, three items by default
+    'someints': ('t:someints', ('1 2', '7', '1 2 3 4')),     # list restricted by minLength 1 / maxLength 4
+    'code': ('t:code', ('AB', 'x y z', 'ABCDEFGH')),         # string restricted by minLength 2 / maxLength 8
+    'colour': ('t:colour', ('red', 'blue', 'red')),          # string restricted by enumeration
 }
-LIST_ITEM = {'ints': 'int', 'toks': 'string', 'decs': 'decimal'}
+LIST_ITEM = {'ints': 'int', 'toks': 'string', 'decs': 'decimal', 'ints3': 'int', 'someints': 'int'}
+STRING_LIKE = ('string', 'code', 'colour')
 SIMPLE_TYPES = (
     '<xs:simpleType name="ints"><xs:list itemType="xs:int"/></xs:simpleType>\n'
     '<xs:simpleType name="toks"><xs:list itemType="xs:NMTOKEN"/></xs:simpleType>\n'
-    '<xs:simpleType name="decs"><xs:list itemType="xs:decimal"/></xs:simpleType>\n')
+    '<xs:simpleType name="decs"><xs:list itemType="xs:decimal"/></xs:simpleType>\n'
+    '<xs:simpleType name="someints"><xs:restriction base="%(p)sints"><xs:minLength value="1"/>'
+    '<xs:maxLength value="4"/></xs:restriction></xs:simpleType>\n'
+    '<xs:simpleType name="code"><xs:restriction base="xs:string"><xs:minLength value="2"/>'
+    '<xs:maxLength value="8"/></xs:restriction></xs:simpleType>\n'
+    '<xs:simpleType name="colour"><xs:restriction base="xs:string"><xs:enumeration value="red"/>'
+    '<xs:enumeration value="blue"/></xs:restriction></xs:simpleType>\n')
 
 
 # --- value space (plain Python) ----------------------------------------------------------------------
@@ -63,7 +74,7 @@ def _tz(s):
 def value_of(leaf, text):
     """The value denoted by a lexical form, as a comparable Python object (None = not in the lexical space)."""
     text = (text or '')
-    if leaf == 'string':
+    if leaf in STRING_LIKE:
         return text
     t = text.strip(' \t\r\n')
     try:
@@ -194,6 +205,21 @@ def _templates():
     add('scalars', C(seq(el('a'), el('b', *OPT), el('c', *OPT), el('d', *OPT)), {
         'a': K('a', S('boolean')), 'b': K('b', S('double')), 'c': K('c', S('date')), 'd': K('d', S('dateTime'))},
         attrs=[('t', 'dateTime', False), ('f', 'double', False)]))
+    # simple content over a LIST type, optional attribute absent by default: single and repeated particle
+    sc_list = C(simple='ints3', attrs=[('unit', 'string', False)])
+    add('sclist', C(seq(el('o'), el('m', *STAR), el('a', *OPT)), {
+        'o': K('o', sc_list), 'm': K('m', C(simple='ints3', attrs=[('unit', 'string', False)])), 'a': a_s}))
+    # a non-repeatable element inside a repeated group with an optional sibling, then another name
+    add('collapse', C(seq(seq(el('i'), el('n', *OPT), mn=0, mx=None), el('t')), {
+        'i': K('i', S('int')), 'n': K('n', S('string')), 't': K('t', S('decimal'))}))
+    add('collapsecomplex', C(seq(seq(el('i'), el('n', *OPT), mn=0, mx=3), el('t')), {
+        'i': K('i', C(simple='string', attrs=[('q', 'int', True)])), 'n': K('n', S('string')),
+        't': K('t', S('decimal'))}, attrs=[('id', 'string', True)]))
+    # restricted simple types whose facets refuse the empty value: element type, simple content, attribute
+    add('facets', C(seq(el('s'), el('c', *OPT), el('p', *STAR)), {
+        's': K('s', S('someints')), 'c': K('c', S('code')),
+        'p': K('p', C(simple='someints', attrs=[('colour', 'colour', True), ('slots', 'someints', False)]))},
+        attrs=[('k', 'code', False)]))
     return T
 
 
@@ -211,17 +237,22 @@ class Decls:
         self.ctypes = []            # cid -> ('C', ...)
         self.cid_of = {}
         self._number(tpl['root'][1])
-        self.words, self.dfa, self.contig, self.sigma = {}, {}, {}, {}
+        self.words, self.dfa, self.contig, self.sigma, self.unique = {}, {}, {}, {}, {}
         for cid, ct in enumerate(self.ctypes):
             model = ct[1]
             if model is None:
                 self.words[cid], self.dfa[cid], self.contig[cid], self.sigma[cid] = [()], None, True, ()
+                self.unique[cid] = {()}
                 continue
             sigma = sorted(regex.letters(model))
             d = regex.dfa_of(model, sigma)
             self.sigma[cid], self.dfa[cid] = sigma, d
             self.words[cid] = [w for w in regex.words(sigma, maxlen) if d.accepts(w)]
             self.contig[cid] = contiguous(d, sigma)
+            by_sig = {}
+            for w in self.words[cid]:
+                by_sig.setdefault(keyed_signature(w), []).append(w)
+            self.unique[cid] = {ws[0] for ws in by_sig.values() if len(ws) == 1}
 
     def _number(self, typ):
         if typ[0] != 'C' or id(typ) in self.cid_of:
@@ -233,6 +264,15 @@ class Decls:
 
     def cid(self, typ):
         return self.cid_of[id(typ)]
+
+
+def keyed_signature(word):
+    """What a keyed-dict convention retains of a child sequence: names in first-occurrence order and counts."""
+    order = []
+    for sym in word:
+        if sym not in order:
+            order.append(sym)
+    return tuple((sym, word.count(sym)) for sym in order)
 
 
 def contiguous(dfa, sigma):
@@ -335,7 +375,7 @@ def render_schemas(tpl, decls=None):
         main.append('<xs:import namespace="%s"/>\n' % ONS)
     root = tpl['root']
     main.append('<xs:element name="%s" type="%s"/>\n' % (root[0], type_ref(root[1], False)))
-    main.append(SIMPLE_TYPES)
+    main.append(SIMPLE_TYPES % {'p': pfx})
     for cid, ct in enumerate(decls.ctypes):
         if cid not in o_types:
             main.append(ctype_xsd(cid, ct, False))
@@ -348,7 +388,7 @@ def render_schemas(tpl, decls=None):
             k = o_globals[local]
             other.append('<xs:element name="%s" type="%s"%s/>\n' % (
                 local, type_ref(k[1], True), ' nillable="true"' if k[3] else ''))
-        other.append(SIMPLE_TYPES)
+        other.append(SIMPLE_TYPES % {'p': 'o:'})
         for cid, ct in enumerate(decls.ctypes):
             if cid in o_types:
                 other.append(ctype_xsd(cid, ct, True))
